@@ -99,3 +99,28 @@ Definition to_layout (m : model) (p : params) (t : nat) (tab : arr val) : arr va
 
 Definition solve_layout (m : model) (p : params) : list (arr val) :=
   map (fun tt => to_layout m p (fst tt) (snd tt)) (combine (seq 0 (n_periods m)) (solve_spec m p)).
+
+(* ---- the state-choice space of a period, stated independently of lcm's array code (C17) ---- *)
+(* stored combinations of the restricted variables: canonical order = restricted states, then
+   restricted choices, each in declaration order; row-major; exactly those passing all filters *)
+Definition stored_combinations (m : model) (p : params) (t : nat) : list ienv :=
+  filter (fun ie => passes m p t (env_of (restricted_states m ++ restricted_choices m) ie))
+         (iassignments (restricted_states m ++ restricted_choices m)).
+
+Definition state_part (m : model) (ie : ienv) : ienv :=
+  map (fun sg => (fst sg, ilook ie (fst sg))) (restricted_states m).
+
+Definition rank_of (m : model) (p : params) (t : nat) (ss : ienv) : Z :=
+  match find_index (ienv_eqb (map fst (restricted_states m))) ss (remaining_states m p t) with
+  | Some r => Z.of_nat r
+  | None => (-1)%Z
+  end.
+
+(* the state indexer: rank among the remaining restricted states, -1 for the others *)
+Definition spec_indexer (m : model) (p : params) (t : nat) : arr Z :=
+  mkArr (map (fun sg => grid_size (snd sg)) (restricted_states m))
+        (map (rank_of m p t) (iassignments (restricted_states m))).
+
+(* the choice segments: the rank of the state part of every stored combination *)
+Definition spec_segments (m : model) (p : params) (t : nat) : list Z :=
+  map (fun ie => rank_of m p t (state_part m ie)) (stored_combinations m p t).
